@@ -30,7 +30,7 @@ VARIABLES tid, l,
           tr       \* the run being validated
 tvars == <<vars, tid, l, tr>>
 
-KFBASE == 100000                                    \* register KFBASE + tid: 2 if the accepted behaviour has kf
+KFBASE == 100000                                    \* register KFBASE + tid: 2 iff every complete behaviour of the run has kf
 
 TraceInit ==
     /\ LET all == Traces IN \E i \in 1..Len(all) : tid = i /\ tr = all[i]
@@ -84,7 +84,8 @@ TraceNext ==
     /\ l' = l + 1
     /\ UNCHANGED <<tid, tr>>
     /\ TLCSet(tid, IF TLCGet(tid) > l + 1 THEN TLCGet(tid) ELSE l + 1)
-    /\ (l = Len(tr) /\ kf') => TLCSet(KFBASE + tid, 2)
+    \* a complete behaviour without kf dominates (3); only-kf behaviours leave 2
+    /\ l = Len(tr) => TLCSet(KFBASE + tid, IF ~kf' THEN 3 ELSE IF TLCGet(KFBASE + tid) = 1 THEN 2 ELSE TLCGet(KFBASE + tid))
 
 TraceSpec == TraceInit /\ [][TraceNext]_tvars
 
